@@ -49,15 +49,10 @@ package kvql
 //@   use ev_lit(e.Left, val(kv.Key), val(kv.Value))
 //@   use ev_lit(e.Right, val(kv.Key), val(kv.Value))
 //@   use rt_lit(e.Left)
-// The documented meaning of every operator, on the values of its operands (README "Operators").
-//@   ensures[C01] eq: e.Op == Eq ==> (err == nil) == (lok(e, kv) && rok(e, kv) && eqKinds(lv(e, kv), rv(e, kv))) && (err == nil ==> result == ABool(eqVal(lv(e, kv), rv(e, kv))))
-//@   ensures[C01] ne: e.Op == NotEq ==> (err == nil) == (lok(e, kv) && rok(e, kv) && eqKinds(lv(e, kv), rv(e, kv))) && (err == nil ==> result == ABool(!eqVal(lv(e, kv), rv(e, kv))))
-//@   ensures[C01] prefix: e.Op == PrefixMatch ==> (err == nil) == (lok(e, kv) && rok(e, kv) && isText(lv(e, kv)) && isText(rv(e, kv))) && (err == nil ==> result == ABool(pre(textOf(rv(e, kv)), textOf(lv(e, kv)))))
-//@   ensures[C01] and: e.Op == And || e.Op == KWAnd ==> (err == nil) == (lok(e, kv) && isbool(lv(e, kv)) && (!bval(lv(e, kv)) || (rok(e, kv) && isbool(rv(e, kv))))) && (err == nil ==> result == ABool(bval(lv(e, kv)) && bval(rv(e, kv))))
-//@   ensures[C01] or: e.Op == Or || e.Op == KWOr ==> (err == nil) == (lok(e, kv) && isbool(lv(e, kv)) && (bval(lv(e, kv)) || (rok(e, kv) && isbool(rv(e, kv))))) && (err == nil ==> result == ABool(bval(lv(e, kv)) || bval(rv(e, kv))))
-//@   ensures[C01] textorder: (e.Op == Gt || e.Op == Gte || e.Op == Lt || e.Op == Lte) && rtype(e.Left) == TSTR ==> (err == nil) == (lok(e, kv) && rok(e, kv) && isText(lv(e, kv)) && isText(rv(e, kv))) && (err == nil ==> result == ABool(cmpHolds(opSym(e.Op), cmp(textOf(lv(e, kv)), textOf(rv(e, kv))))))
-//@   ensures[C01] numorder: (e.Op == Gt || e.Op == Gte || e.Op == Lt || e.Op == Lte) && rtype(e.Left) != TSTR ==> (err == nil) == (lok(e, kv) && rok(e, kv) && isNum(lv(e, kv)) && isNum(rv(e, kv))) && (err == nil && isInt(lv(e, kv)) && isInt(rv(e, kv)) ==> result == ABool(intHolds(opSym(e.Op), intof(lv(e, kv)), intof(rv(e, kv))))) && (err == nil && !(isInt(lv(e, kv)) && isInt(rv(e, kv))) ==> result == ABool(fltHolds(opSym(e.Op), numOf(lv(e, kv)), numOf(rv(e, kv)))))
-//@   ensures[C01] math: (e.Op == Sub || e.Op == Mul || e.Op == Div || (e.Op == Add && rtype(e.Left) != TSTR)) ==> (err == nil) == (lok(e, kv) && rok(e, kv) && isNum(lv(e, kv)) && isNum(rv(e, kv)) && !divByZero(opChar(e.Op), rv(e, kv))) && (err == nil && isInt(lv(e, kv)) && isInt(rv(e, kv)) ==> result == AInt(intOp(opChar(e.Op), intof(lv(e, kv)), intof(rv(e, kv))))) && (err == nil && !(isInt(lv(e, kv)) && isInt(rv(e, kv))) ==> result == AFlt(fltOp(opChar(e.Op), numOf(lv(e, kv)), numOf(rv(e, kv)))))
+// The documented meaning of every operator, on the values of its operands (README "Operators"):
+// docBin (contracts_verif_eval.go) relates "evaluates" (ok) and "the value" (r) of the node to
+// the outcomes of its operands.
+//@   ensures[C01] meaning: docBin(e, kv, err == nil, result)
 //
 //@ func (o *ExpressionOptimizer) tryOptimizeFunctionCall(e *FunctionCallExpr) (res Expression, isValue bool)
 //@   trusted thin contract (frame and shape only), body not yet verified
